@@ -105,8 +105,9 @@ pub fn check_c03(sc: &H1Scenario, out: &H1Out) -> Vec<Violation> {
         // … and its body stream has been polled to the end (for HEAD the head is the whole response)
         let body_done = pl.get(j).and_then(|n| n.seen_idx).and_then(|k| co.bodies.get(k)).and_then(|b| b.dropped).map(|d| d.1).unwrap_or(0);
         let idle_from = close_done.max(own_end_read).max(body_done);
-        // … and the transport has confirmed a flush after that
-        let idle_from = co.flush_ready_steps.iter().copied().find(|s| *s >= idle_from).unwrap_or(u64::MAX).max(idle_from);
+        // … and the connection task has been parked since (nothing runnable, no flush outstanding):
+        // from that point on the server has had every chance to act on the close
+        let idle_from = co.parked_steps.iter().copied().find(|s| *s >= idle_from).unwrap_or(u64::MAX);
         let follower_received = pl
             .get(j + 1)
             .and_then(|n| layout.get(n.req_idx))
